@@ -148,6 +148,8 @@ def run(prog, tier, res):
     R6 = res.rule("C04.R6", "empty chunk list is rejected", floor=1)
     R7 = res.rule("C04.R7", "decoded bytes = concatenation of payloads in vector order; result returned unchanged", floor=3)
     R8 = res.rule("C04.R8", "PwbPacket::try_from(Vec<Chunk>) forwards to the V2 reassembly", floor=1)
+    from .common import check_try_from_wrapper as _ctw
+    _ctw(prog, res, R8, '<alpha_g_detector::padwing::PwbPacket as std::convert::TryFrom<std::vec::Vec<alpha_g_detector::padwing::Chunk>>>::try_from', '<alpha_g_detector::padwing::PwbV2Packet as std::convert::TryFrom<std::vec::Vec<alpha_g_detector::padwing::Chunk>>>::try_from', 'V2', 'arg1')
 
     chunk_id = field_index(prog, CHUNK, "chunk_id")
     payload_f = field_index(prog, CHUNK, "payload")
